@@ -184,6 +184,11 @@ func checkC08(c *Ctx) {
 			return true
 		})
 	}
+	c.Decides("CMP: the tip order behind the bit sets of both trees (SortedTips) is a strict comparison of plain names, so the same taxa get the same bit positions in both trees whatever their child order or rooting")
+	if fi := c.Func("tree", "Tree", "SortedTips"); fi != nil {
+		c.cmpTotal("CMP", []*FuncInfo{fi}, "independent of child order and rooting")
+	}
+	c.Floor("CMP", 1)
 	c.Floor("GF", 5)
 	c.Floor("LF", 3)
 	c.Floor("ERRFLOW", 6)
